@@ -503,10 +503,10 @@ class Register(wiring.Component):
         for field_path, field in self:
             width += Shape.cast(field.port.shape).width
             if field.port.access.readable() and not access.readable():
-                raise ValueError(f"Field {'__'.join(field_path)} is readable, but element access "
+                raise ValueError(f"Field {'__'.join(str(key) for key in field_path)} is readable, but element access "
                                  f"mode is {access}")
             if field.port.access.writable() and not access.writable():
-                raise ValueError(f"Field {'__'.join(field_path)} is writable, but element access "
+                raise ValueError(f"Field {'__'.join(str(key) for key in field_path)} is writable, but element access "
                                  f"mode is {access}")
 
         super().__init__({"element": Out(Element.Signature(width, access))})
